@@ -21,6 +21,7 @@ default.  `uint16_t` values cross the L1CTL socket as two octets in network byte
 one side, `ntohs` on the other): the message is modelled by its octets, so the model does not depend
 on the byte order of the host.  No Mathlib.
 -/
+import OsmoVerif.Gen.HopChain
 import OsmoVerif.Model.MobileAlloc
 import OsmoVerif.Model.TrxconIf
 import OsmoVerif.Model.World
@@ -53,6 +54,8 @@ inductive Fault
   | uninitMaLen
   /-- a fault inside `trx_if_handle_phyif_cmd` -/
   | trxcon (f : TrxconIf.Fault)
+  /-- `trxcon_phyif_handle_cmd` of the tree is no longer the plain forwarder to `trx_if_handle_phyif_cmd` -/
+  | phyifNotForwarder
 deriving DecidableEq, Repr
 
 def u8 (x : Nat) : Nat := x % 256
@@ -68,11 +71,12 @@ def wr (o : Obj) (xs : List Nat) (i v : Nat) : Except Fault (List Nat) :=
 
 /-! ### layer23: `gsm48_rr_render_ma` -/
 
-/-- `ARFCN_PCS` -/
-def arfcnPcs : Nat := 32768
-/-- `GSM48_RR_CAUSE_NO_CELL_ALLOC_A`, `GSM48_RR_CAUSE_FREQ_NOT_IMPL` (TS 44.018 10.5.2.31) -/
-def causeNoCellAllocA : Nat := 0x65
-def causeFreqNotImpl : Nat := 0x08
+/-- `ARFCN_PCS`, `ARFCN_FLAG_MASK` (regenerated from gsm_utils.h) -/
+def arfcnPcs : Nat := Gen.HopChain.arfcnPcs
+def arfcnFlagMask : Nat := Gen.HopChain.arfcnFlagMask
+/-- `GSM48_RR_CAUSE_NO_CELL_ALLOC_A`, `GSM48_RR_CAUSE_FREQ_NOT_IMPL` (regenerated from gsm_04_08.h) -/
+def causeNoCellAllocA : Nat := Gen.HopChain.causeNoCellAllocA
+def causeFreqNotImpl : Nat := Gen.HopChain.causeFreqNotImpl
 
 /-- `arfcn2index(uint16_t arfcn)` (mobile/gsm322.c):
 ```
@@ -83,7 +87,7 @@ return arfcn & 1023;
 ``` -/
 def arfcn2index (arfcn : Nat) : Nat :=
   let isPcs := u16 arfcn &&& arfcnPcs
-  let a := u16 arfcn &&& 4095
+  let a := u16 arfcn &&& (65535 ^^^ arfcnFlagMask)      -- uint16_t arfcn &= ~ARFCN_FLAG_MASK
   if isPcs ≠ 0 ∧ a ≥ 512 ∧ a ≤ 810 then (a &&& 1023) - 512 + 1024 else a &&& 1023
 
 /-- one channel of the conversion loop: `if (arfcn >= 512 && arfcn <= 810) arfcn |= pcs;` -/
@@ -156,6 +160,9 @@ def renderMa (h : Nat) (freq lv : List Nat) (pcs : Bool) (freqMap ma : List Nat)
 
 /-! ### layer23: `l1ctl_tx_dm_est_req_h1` -/
 
+/-- octets of `uint16_t ma[64]` of `struct l1ctl_h1` (capacity regenerated from l1ctl_proto.h) -/
+def l1ctlOctets : Nat := Gen.HopChain.l1ctlMaElem * Gen.HopChain.l1ctlMaCap
+
 /-- `struct l1ctl_h1` inside the L1CTL_DM_EST_REQ message (`req->h = 1`): three octets and
 `uint16_t ma[64]` as its 128 octets on the wire (network byte order); the message buffer is
 zero-filled when allocated -/
@@ -178,7 +185,7 @@ def htonsLoop (ma : List Nat) : (k i : Nat) → List Nat → Except Fault (List 
 
 /-- `l1ctl_tx_dm_est_req_h1(ms, maio, hsn, ma, ma_len, …)`: parameters `uint8_t maio, hsn, ma_len` -/
 def l1ctlTxDmEstReqH1 (maio hsn : Nat) (ma : List Nat) (maLen : Nat) : Except Fault L1ctlH1 := do
-  let oct ← htonsLoop ma (u8 maLen) 0 (List.replicate 128 0)
+  let oct ← htonsLoop ma (u8 maLen) 0 (List.replicate l1ctlOctets 0)
   pure { hsn := u8 hsn, maio := u8 maio, n := u8 maLen, maOctets := oct }
 
 /-! ### trxcon: `l1ctl_proc_est_req_h1`, `handle_dch_est_req` -/
@@ -212,7 +219,7 @@ def trxconProcEstReqH1 (h : L1ctlH1) : Except Fault (Except Int DchEstH1) := do
   if h.n = 0 then return .error (-Gen.Trxcon.eINVAL)
   if h.n > h.maOctets.length / 2 then return .error (-Gen.Trxcon.eINVAL)
   -- `struct trxcon_param_dch_est_req req = { … }`: members not named are zero
-  let ma ← ntohsLoop .trxconMa h.maOctets h.n 0 (List.replicate 64 0)
+  let ma ← ntohsLoop .trxconMa h.maOctets h.n 0 (List.replicate Gen.HopChain.trxconMaCap 0)
   return .ok { hsn := h.hsn, maio := h.maio, n := h.n, ma := ma }
 
 /-- `handle_dch_est_req(fi, req)` with `req->hopping`: the PHYIF command handed to
@@ -256,6 +263,8 @@ def trxconPath (msg : L1ctlH1) : Except Fault (Int × List (List Nat)) := do
   match ← trxconProcEstReqH1 msg with
   | .error rc => return (rc, [])
   | .ok req =>
+    -- trxcon_phyif_handle_cmd(trxcon->phyif, &phycmd) = trx_if_handle_phyif_cmd(phyif, cmd)
+    if !Gen.HopChain.phyifForwards then throw .phyifNotForwarder
     match TrxconIf.cPhyCmd { state := Gen.Trxcon.stIdle, prevState := Gen.Trxcon.stOffline } (handleDchEstReq req) with
     | .error f => throw (.trxcon f)
     | .ok (rc, t) => return (rc, t.sent)
